@@ -168,6 +168,8 @@ let dispatch (cmd : string) (t : tree) : tree =
       w_list (w_list w_nat) (Grid.beta_to_knots (r_nat kpl) (r_bool rr) (r_list r_nat latent) (r_list r_nat beta))
   | "cost_alloc", [calls] ->
       let (c, n) = Cost.allocation (r_list r_qs calls) in L [w_q c; w_z n]
+  | "cost_alloc_upto", [k; calls] ->
+      let (c, n) = Cost.allocation_upto (r_nat k) (r_list r_qs calls) in L [w_q c; w_z n]
   | "transf", [chain; hyper; xs; ys] ->
       (* chain entries: [0,[m,b]] linear, [1,[lb,ub,lbn,ubn]] minmax, [2,[mu,std]] zscore; hyper: [[lb,ub]|[], [mu,std]|[]] *)
       let mk t = match as_list t with
